@@ -277,6 +277,34 @@ package wire
 //@   ensures [delay-nonneg] implies(result2 == nil, result0.RequestMaxAckDelay >= 0)
 //@   modifies nothing
 
+//@ pred (f *AckFrequencyFrame) valid() = f.SequenceNumber <= 4611686018427387903 && f.AckElicitingThreshold <= 4611686018427387903 &&
+//@      0 <= f.RequestMaxAckDelay && 0 <= f.ReorderingThreshold && f.ReorderingThreshold <= 4611686018427387903
+//@ spec afqlen(f *AckFrequencyFrame) int = 2 + quicvarint.vlen(f.SequenceNumber) + quicvarint.vlen(f.AckElicitingThreshold) +
+//@      quicvarint.vlen(uint64(int64(f.RequestMaxAckDelay) / 1000)) + quicvarint.vlen(uint64(f.ReorderingThreshold))
+//@ func (f *AckFrequencyFrame) Length
+//@   props C08
+//@   arith bv
+//@   requires f.valid()
+//@   ensures [flen] result == afqlen(f)
+//@   modifies nothing
+//@ func (f *AckFrequencyFrame) Append
+//@   props C08
+//@   arith bv
+//@   requires f.valid() && len(b) <= 1099511627776
+//@   ensures [flen] result1 == nil && len(result0) == len(b) + afqlen(f)
+//@   modifies b[*]
+//@ func (f *ImmediateAckFrame) Length
+//@   props C08
+//@   arith bv
+//@   ensures [flen] result == 1
+//@   modifies nothing
+//@ func (f *ImmediateAckFrame) Append
+//@   props C08
+//@   arith bv
+//@   requires len(b) <= 1099511627776
+//@   ensures [flen] result1 == nil && len(result0) == len(b) + 1
+//@   modifies b[*]
+
 // ---------------- ACK ----------------
 //@ extern (d time.Duration) Nanoseconds
 //@   ensures result == int64(d)
@@ -464,6 +492,270 @@ package wire
 //@   props C10
 //@   ensures result == 1 + dest.l + pnLen
 //@   modifies nothing
+
+// ---------------- ACK: parsing (C08) ----------------
+// parseAckFrame is verified over mathematical integers: the one place where it relies on wrap-around (an ACK delay whose
+// scaled value overflows is detected by "delayTime < 0" and replaced by the maximum) is outside what that mode models;
+// the stated postcondition DelayTime >= 0 holds on either branch.
+// wire-validity as validateAckRanges decides it: at least one range, every range non-empty, ranges strictly descending
+// with a gap of at least one packet number between neighbours
+//@ pred (f *AckFrame) wireValid() = len(f.AckRanges) >= 1 &&
+//@      forall(k, 0, len(f.AckRanges), f.AckRanges[k].Smallest <= f.AckRanges[k].Largest, trig(f.AckRanges, k)) &&
+//@      forall(k, 1, len(f.AckRanges), f.AckRanges[k-1].Smallest > f.AckRanges[k].Smallest && f.AckRanges[k-1].Smallest > f.AckRanges[k].Largest + 1, trig(f.AckRanges, k))
+
+//@ func (f *AckFrame) validateAckRanges
+//@   props C08
+//@   requires forall(k, 0, len(f.AckRanges), f.AckRanges[k].Largest <= 4611686018427387903 && f.AckRanges[k].Smallest >= -4611686018427387903, trig(f.AckRanges, k))
+//@   ensures [iff-wire-valid] iff(result, f.wireValid())
+//@   modifies nothing
+//@ loop (f *AckFrame) validateAckRanges #0
+//@   invariant 0 <= rangeidx && rangeidx <= len(f.AckRanges) && len(f.AckRanges) >= 1
+//@   invariant forall(k, 0, rangeidx, f.AckRanges[k].Smallest <= f.AckRanges[k].Largest, trig(f.AckRanges, k))
+//@   modifies nothing
+//@ loop (f *AckFrame) validateAckRanges #1
+//@   invariant 0 <= rangeidx && rangeidx <= len(f.AckRanges) && len(f.AckRanges) >= 1
+//@   invariant forall(k, 0, len(f.AckRanges), f.AckRanges[k].Smallest <= f.AckRanges[k].Largest, trig(f.AckRanges, k))
+//@   invariant forall(k, 1, rangeidx, f.AckRanges[k-1].Smallest > f.AckRanges[k].Smallest && f.AckRanges[k-1].Smallest > f.AckRanges[k].Largest + 1, trig(f.AckRanges, k))
+//@   modifies nothing
+
+//@ func parseAckFrame
+//@   props C08
+//@   requires frame != nil && len(frame.AckRanges) == 0 && len(b) <= 1099511627776
+//@   ensures [consumed] implies(result1 == nil, 4 <= result0 && result0 <= len(b))
+//@   ensures [on-error] implies(result1 != nil, result0 == 0)
+//@   ensures [ranges-wire-valid] implies(result1 == nil, frame.wireValid())
+//@   ensures [delay-non-negative] implies(result1 == nil, frame.DelayTime >= 0)
+//@   modifies frame.AckRanges, frame.DelayTime, frame.ECT0, frame.ECT1, frame.ECNCE, elems(AckRange)
+//@ loop parseAckFrame #0
+//@   invariant 0 <= len(b) && len(b) + 4 <= startLen && startLen == len(old(b)) && len(frame.AckRanges) >= 1
+//@   invariant forall(k, 0, len(frame.AckRanges), 0 <= frame.AckRanges[k].Smallest && frame.AckRanges[k].Largest <= 4611686018427387903, trig(frame.AckRanges, k))
+//@   invariant 0 <= smallest && smallest <= 4611686018427387903
+//@   modifies frame.AckRanges, elems(AckRange)
+
+// ---------------- NEW_CONNECTION_ID (C08; the frame the C12/C16 rules act on) ----------------
+//@ pred (f *NewConnectionIDFrame) valid() = f.SequenceNumber <= 4611686018427387903 && f.RetirePriorTo <= 4611686018427387903 && f.ConnectionID.l <= 20
+
+//@ func parseNewConnectionIDFrame
+//@   props C08
+//@   arith bv
+//@   ensures [consumed] implies(result2 == nil, result0 != nil && 20 <= result1 && result1 <= len(b))
+//@   ensures [on-error] implies(result2 != nil, result0 == nil && result1 == 0)
+//@   ensures [rfc-ranges] implies(result2 == nil, result0.RetirePriorTo <= result0.SequenceNumber && 1 <= result0.ConnectionID.l && result0.ConnectionID.l <= 20 && result0.valid())
+//@   modifies nothing
+
+//@ func (f *NewConnectionIDFrame) Length
+//@   props C08
+//@   arith bv
+//@   requires f.valid()
+//@   ensures [flen] result == 1 + quicvarint.vlen(f.SequenceNumber) + quicvarint.vlen(f.RetirePriorTo) + 1 + int(f.ConnectionID.l) + 16
+//@   modifies nothing
+
+//@ func (f *NewConnectionIDFrame) Append
+//@   props C08
+//@   arith bv
+//@   requires f.valid() && len(b) <= 1099511627776
+//@   ensures [flen] result1 == nil && len(result0) == len(b) + 1 + quicvarint.vlen(f.SequenceNumber) + quicvarint.vlen(f.RetirePriorTo) + 1 + int(f.ConnectionID.l) + 16
+//@   modifies b[*]
+
+// ---------------- long header parsing (C08) ----------------
+//@ func IsLongHeaderPacket
+//@   props C08
+//@   arith bv
+//@   ensures [bit] result == (firstByte & 128 != 0)
+//@   modifies nothing
+
+//@ func (h *Header) parseLongHeader
+//@   props C08
+//@   requires h != nil && len(b) <= 1099511627776
+//@   ensures [consumed-within-input] 0 <= result0 && result0 <= len(b)
+//@   ensures [rfc-ranges] implies(result1 == nil, h.DestConnectionID.l <= 20 && h.SrcConnectionID.l <= 20 && result0 >= 6 && (h.Length == old(h.Length) || (0 <= h.Length && h.Length <= 4611686018427387903)))
+//@   ensures [length-read-unless-vn-or-retry] implies(result1 == nil && h.Version != 0 && h.Type != protocol.PacketTypeRetry, 0 <= h.Length && h.Length <= 4611686018427387903 && result0 >= 7)
+//@   modifies h.Version, h.DestConnectionID.*, h.SrcConnectionID.*, h.Type, h.Token, h.Length
+
+//@ func (h *Header) ParsedLen
+//@   props C08
+//@   ensures result == h.parsedLen
+//@   modifies nothing
+
+//@ func parseHeader
+//@   props C08
+//@   arith bv
+//@   requires len(b) <= 1099511627776
+//@   ensures [consumed-within-input] implies(result0 != nil, 1 <= result0.parsedLen && result0.parsedLen <= len(b))
+//@   ensures [nil-only-on-error] implies(result1 == nil, result0 != nil && result0.parsedLen >= 7 && 0 <= result0.Length && result0.Length <= 4611686018427387903)
+//@   modifies nothing
+
+//@ func ParsePacket
+//@   props C08
+//@   arith bv
+//@   requires len(data) <= 1099511627776
+//@   ensures [cut-at-length] implies(result3 == nil, result0 != nil && len(result1) + len(result2) == len(data) && len(result1) == int(result0.parsedLen + result0.Length))
+//@   ensures [error-no-slices] implies(result3 != nil, result1 == nil && result2 == nil)
+//@   modifies nothing
+
+// ---------------- packet number field, short header, extended header (C08) ----------------
+//@ spec pnspace(l uint8) int64 = ite(l == 1, 256, ite(l == 2, 65536, ite(l == 3, 16777216, 4294967296)))
+
+//@ func readPacketNumber
+//@   props C08
+//@   arith bv
+//@   requires implies(1 <= pnLen && pnLen <= 4, len(data) >= int(pnLen))
+//@   ensures [error-iff-invalid-length] iff(result1 != nil, pnLen < 1 || pnLen > 4)
+//@   ensures [value-fits-length] implies(result1 == nil, 0 <= result0 && result0 < pnspace(uint8(pnLen)))
+//@   modifies nothing
+
+//@ func ParseShortHeader
+//@   props C08
+//@   arith bv
+//@   requires 0 <= connIDLen && connIDLen <= 1048576 && len(data) <= 1099511627776
+//@   ensures [consumed] implies(length != 0, length == 1 + connIDLen + int(result2) && length <= len(data) && 1 <= result2 && result2 <= 4 && 0 <= result1 && result1 < pnspace(uint8(result2)))
+//@   ensures [success-consumes] implies(result4 == nil, length >= 2)
+//@   ensures [long-header-rejected] implies(len(data) >= 1 && data[0] & 128 != 0, result4 != nil && length == 0)
+//@   modifies nothing
+
+//@ func AppendShortHeader
+//@   props C08
+//@   requires 1 <= pnLen && pnLen <= 4 && connID.l <= 20 && len(b) <= 1099511627776
+//@   ensures [len] result1 == nil && len(result0) == len(b) + 1 + int(connID.l) + int(pnLen)
+//@   modifies b[*]
+
+//@ func (h *ExtendedHeader) parse
+//@   props C08
+//@   arith bv
+//@   requires h != nil && len(data) >= 1 && len(data) <= 1099511627776 && 0 <= h.Header.parsedLen && h.Header.parsedLen <= 1099511627776
+//@   ensures [consumed] implies(result1 == nil, 1 <= h.PacketNumberLen && h.PacketNumberLen <= 4 && h.parsedLen == h.Header.parsedLen + int64(h.PacketNumberLen) && h.parsedLen <= len(data))
+//@   ensures [pn-fits-length] implies(result1 == nil, 0 <= h.PacketNumber && h.PacketNumber < pnspace(uint8(h.PacketNumberLen)))
+//@   ensures [reserved-bits] implies(result1 == nil, result0 == (data[0] & 12 == 0))
+//@   modifies h.typeByte, h.PacketNumberLen, h.PacketNumber, h.parsedLen
+
+// ---------------- frame type dispatch (C08) ----------------
+// RFC 9000 section 12.4 (table 3) and 12.5, written out: what an Initial/Handshake packet may carry besides PADDING,
+// and what a 0-RTT packet must not carry
+//@ spec ihAllowed(t uint64) bool = t == 1 || t == 2 || t == 3 || t == 6 || t == 28
+//@ spec zeroRTTForbidden(t uint64) bool = t == 2 || t == 3 || t == 6 || t == 7 || t == 27 || t == 25
+//@ func (t FrameType) isValidRFC9000
+//@   props C08
+//@   ensures result == (t <= 30)
+//@   modifies nothing
+//@ func (t FrameType) IsDatagramFrameType
+//@   props C08
+//@   ensures result == (t == 48 || t == 49)
+//@   modifies nothing
+//@ func (t FrameType) IsStreamFrameType
+//@   props C08
+//@   ensures result == (8 <= t && t <= 15)
+//@   modifies nothing
+//@ func (t FrameType) IsAckFrameType
+//@   props C08
+//@   ensures result == (t == 2 || t == 3)
+//@   modifies nothing
+//@ func (t FrameType) isAllowedAtEncLevel
+//@   props C08
+//@   panics when encLevel != protocol.EncryptionInitial && encLevel != protocol.EncryptionHandshake && encLevel != protocol.Encryption0RTT && encLevel != protocol.Encryption1RTT
+//@   ensures [initial-handshake-allow-list] implies(encLevel == protocol.EncryptionInitial || encLevel == protocol.EncryptionHandshake, result == ihAllowed(uint64(t)))
+//@   ensures [zero-rtt-deny-list] implies(encLevel == protocol.Encryption0RTT && zeroRTTForbidden(uint64(t)), !result)
+//@   ensures [one-rtt-everything] implies(encLevel == protocol.Encryption1RTT, result)
+//@   modifies nothing
+
+//@ func (p *FrameParser) ParseType
+//@   props C08
+//@   arith bv
+//@   requires p != nil && len(b) <= 1099511627776
+//@   requires encLevel == protocol.EncryptionInitial || encLevel == protocol.EncryptionHandshake || encLevel == protocol.Encryption0RTT || encLevel == protocol.Encryption1RTT
+//@   ensures [consumed-within-input] 0 <= result1 && result1 <= len(b)
+//@   ensures [type-known-and-allowed] implies(result2 == nil, result0 != 0 && result1 >= 1 &&
+//@            (result0 <= 30 || (p.supportsDatagrams && (result0 == 48 || result0 == 49)) || (p.supportsResetStreamAt && result0 == 36) || (p.supportsAckFrequency && (result0 == 175 || result0 == 31))) &&
+//@            implies(encLevel == protocol.EncryptionInitial || encLevel == protocol.EncryptionHandshake, ihAllowed(uint64(result0))) &&
+//@            implies(encLevel == protocol.Encryption0RTT, !zeroRTTForbidden(uint64(result0))))
+//@   ensures [error-no-type] implies(result2 != nil, result0 == 0)
+//@   modifies nothing
+//@ loop (p *FrameParser) ParseType #0
+//@   invariant 0 <= parsed && parsed + len(b) == len(old(b))
+//@   modifies nothing
+
+//@ func (f *AckFrame) Reset
+//@   props C08
+//@   ensures [emptied] len(f.AckRanges) == 0 && f.DelayTime == 0 && f.ECT0 == 0 && f.ECT1 == 0 && f.ECNCE == 0
+//@   ensures [buffer-kept] samearray(f.AckRanges, old(f.AckRanges)) && cap(f.AckRanges) == old(cap(f.AckRanges))
+//@   modifies f.DelayTime, f.ECT0, f.ECT1, f.ECNCE, f.AckRanges
+//@ loop (f *AckFrame) Reset #0
+//@   invariant 0 <= rangeidx && rangeidx <= len(f.AckRanges)
+//@   modifies nothing
+
+//@ func (p *FrameParser) ParseAckFrame
+//@   props C08
+//@   arith bv
+//@   requires p != nil && p.ackFrame != nil && len(data) <= 1099511627776
+//@   ensures [consumed-within-input] 0 <= result1 && result1 <= len(data)
+//@   ensures [success] implies(result2 == nil, result0 == p.ackFrame && result1 >= 4 && result0.wireValid() && result0.DelayTime >= 0)
+//@   ensures [error-kind] implies(result2 != nil, result0 == nil && iserr(result2, qerr.FrameEncodingError))
+//@   modifies p.ackFrame.AckRanges, p.ackFrame.DelayTime, p.ackFrame.ECT0, p.ackFrame.ECT1, p.ackFrame.ECNCE, elems(AckRange)
+
+//@ func (p *FrameParser) ParseStreamFrame
+//@   props C08
+//@   arith bv
+//@   requires len(data) <= 1099511627776 && 8 <= frameType && frameType <= 15
+//@   ensures [consumed-within-input] 0 <= result1 && result1 <= len(data)
+//@   ensures [error-kind] implies(result2 != nil, result0 == nil && iserr(result2, qerr.FrameEncodingError))
+//@   ensures [success] implies(result2 == nil, result0 != nil)
+
+//@ func (p *FrameParser) ParseDatagramFrame
+//@   props C08
+//@   arith bv
+//@   requires len(data) <= 1099511627776
+//@   ensures [consumed-within-input] 0 <= result1 && result1 <= len(data)
+//@   ensures [error-kind] implies(result2 != nil, result0 == nil && result1 == 0 && iserr(result2, qerr.FrameEncodingError))
+//@   ensures [success] implies(result2 == nil, result0 != nil)
+
+//@ func (p *FrameParser) ParseLessCommonFrame
+//@   props C08
+//@   arith bv
+//@   requires len(data) <= 1099511627776
+//@   ensures [consumed-within-input] 0 <= result1 && result1 <= len(data)
+//@   ensures [success-has-frame] implies(result2 == nil, result0 != nil)
+//@   ensures [error-kind] implies(result2 != nil, iserr(result2, qerr.FrameEncodingError) && result1 == 0)
+//@   ensures [unknown-type-rejected] implies(!(frameType == 1 || (4 <= frameType && frameType <= 7) || (16 <= frameType && frameType <= 31) || frameType == 36 || frameType == 175), result2 != nil)
+
+// ---------------- transport parameters: encoding helpers and session-ticket form (C08) ----------------
+//@ spec tpvarlen(id uint64, val uint64) int = quicvarint.vlen(id) + 1 + quicvarint.vlen(val)
+//@ func (p *TransportParameters) marshalVarintParam
+//@   props C08
+//@   arith bv
+//@   requires id >= 0 && id <= 4611686018427387903 && val <= 4611686018427387903 && len(b) <= 1099511627776
+//@   ensures [len] len(result) == len(b) + tpvarlen(uint64(id), val)
+//@   ensures [array] samearray(result, b) || isfresh(result)
+//@   modifies b[*]
+
+//@ func (p *TransportParameters) Unmarshal
+//@   props C08
+//@   arith bv
+//@   requires p != nil && len(data) <= 1099511627776
+//@   ensures [error-kind] implies(result != nil, iserr(result, qerr.TransportParameterError))
+//@   modifies p.*
+
+//@ func (p *TransportParameters) UnmarshalFromSessionTicket
+//@   props C08
+//@   arith bv
+//@   requires p != nil && len(b) <= 1099511627776
+//@   ensures [version-checked] implies(result == nil, len(b) >= 1 && old(quicvarint.vdec(b)) == 1)
+//@   modifies p.*
+
+// ---------------- ACK truncation (C08) ----------------
+//@ func (f *AckFrame) numEncodableAckRanges
+//@   props C08
+//@   requires f.valid() && len(f.AckRanges) >= 1 && 0 <= maxSize && maxSize <= 1099511627776
+//@   ensures [range] 1 <= result && result <= len(f.AckRanges) && result <= 64
+//@   modifies nothing
+//@ loop (f *AckFrame) numEncodableAckRanges #0
+//@   invariant 1 <= i && i <= numRanges && numRanges <= len(f.AckRanges) && numRanges <= 64 && 0 <= length && length <= 64 + 16 * i
+//@   modifies nothing
+
+//@ func (f *AckFrame) Truncate
+//@   props C08
+//@   requires f.valid() && len(f.AckRanges) >= 1 && 0 <= maxSize && maxSize <= 1099511627776
+//@   ensures [prefix-kept] 1 <= len(f.AckRanges) && len(f.AckRanges) <= old(len(f.AckRanges)) && len(f.AckRanges) <= 64 && samearray(f.AckRanges, old(f.AckRanges))
+//@   ensures [largest-kept] f.AckRanges[0].Largest == old(f.AckRanges[0].Largest) && f.AckRanges[0].Smallest == old(f.AckRanges[0].Smallest)
+//@   modifies f.AckRanges
 
 // ---------------- Version Negotiation (C13) ----------------
 //@ extern (r encoding/binary.bigEndian) Uint32
